@@ -13,7 +13,7 @@ import (
 func init() {
 	register("C08", &propDef{
 		Title: "A finished bundle contains everything that was added or discovered",
-		Rules: []func(*Checker){ruleC08NoDrop, ruleC08Drain, ruleC08Callbacks, ruleC08Manifest, ruleC08SameJoin, ruleC08Lookup, ruleC08Meta},
+		Rules: []func(*Checker){ruleC08NoDrop, ruleC08Drain, ruleC08Callbacks, ruleC08Manifest, ruleC08SameJoin, ruleC08Lookup, ruleC08Meta, ruleCopiedWhenEmpty("C08.metacopy"), ruleArgOrder("C08.argorder"), ruleTracerNonNil("C08.tracer")},
 		NotDecided: []string{
 			"transitive closure over arbitrary dependency graphs and the content of fetched files (run-time facts)",
 			"that looked-up paths exist on disk",
@@ -22,7 +22,7 @@ func init() {
 	register("C09", &propDef{
 		Title: "A bundle survives being re-opened and archived",
 		Rules: []func(*Checker){ruleC09Fields, ruleC09Archive, ruleChecksum("C09.checksum"), ruleC06ManifestAs("C09.addrs"),
-			ruleRootSymmetric("C09.symmetric"), ruleLinkPrecise("C09.linkprecise"), ruleC09Answers,
+			ruleRootSymmetric("C09.symmetric"), ruleLinkPrecise("C09.linkprecise"), ruleC09Answers, ruleLocalMemo("C09.localmemo"),
 			aliasRuleFiltered(ruleC06CanonURL, "C06.canonurl", "C09.canonkey", 1, func(o Oblig) bool { return strings.Contains(o.Key, "canonical") }),
 			aliasRuleFiltered(ruleC13Maps, "C13.maps", "C09.lookup", 3, func(o Oblig) bool { return strings.Contains(o.Key, "sourcebundle.Bundle)") || strings.Contains(o.Key, "sourcebundle.OpenDir/") })},
 		NotDecided: []string{
@@ -2057,5 +2057,244 @@ func ruleC09Answers(c *Checker) {
 			}
 		}
 		c.check(okAns, R, p.FuncName(fn), "can answer from the bundle's records", p.Pos(fn.Pos()), "a return value built from a field of the bundle", "every return of this listing method is nil (or independent of the bundle): what the manifest recorded cannot be read back")
+	}
+}
+
+// ---------- small generic rules found wanting by the mutation sweep ----------
+
+// ruleLocalMemo — a local map consulted with comma-ok is also filled.
+func ruleLocalMemo(id string) func(*Checker) {
+	return func(c *Checker) {
+		c.rule(id, "A map created inside a function of the bundle package and consulted there with a comma-ok lookup (a memo of what was already emitted, a table of spellings already seen) is updated under the same key on a path from the lookup's miss edge: a memo that is read but never written makes every lookup miss — one manifest entry per version instead of per package (in map order), or a duplicate-spelling test that never fires.", 2)
+		p := c.P
+		for _, fn := range p.Funcs {
+			if !inBundlePkg(p, fn) {
+				continue
+			}
+			eachInstr(fn, func(in ssa.Instruction) {
+				lk, ok := in.(*ssa.Lookup)
+				if !ok || !lk.CommaOk {
+					return
+				}
+				mm, ok := canon(lk.X).(*ssa.MakeMap)
+				if !ok || mm.Parent() != fn {
+					return
+				}
+				var okv ssa.Value
+				if refs := lk.Referrers(); refs != nil {
+					for _, r := range *refs {
+						if ex, isEx := r.(*ssa.Extract); isEx && ex.Index == 1 {
+							okv = ex
+						}
+					}
+				}
+				if okv == nil {
+					return
+				}
+				_, miss := boolEdges(fn, okv)
+				filled := false
+				eachInstr(fn, func(x ssa.Instruction) {
+					mu, ok := x.(*ssa.MapUpdate)
+					if !ok || canon(mu.Map) != ssa.Value(mm) || !(canon(mu.Key) == canon(lk.Index) || sameLoc(mu.Key, lk.Index)) {
+						return
+					}
+					for _, e := range miss {
+						if e.To() == mu.Block() || reachFromEdge(e)[mu.Block()] {
+							filled = true
+						}
+					}
+				})
+				c.check(filled, id, p.FuncName(fn), "local table "+mapDesc(lk.X)+" is filled after a miss", p.Pos(lk.Pos()), "an update under the looked-up key is reachable from the miss edge", "the table is consulted but never filled under the key that was looked up: every lookup misses")
+			})
+		}
+	}
+}
+
+// ruleCopiedWhenEmpty — a string field is not copied on the edge where it was
+// just found to be empty.
+func ruleCopiedWhenEmpty(id string) func(*Checker) {
+	return func(c *Checker) {
+		c.rule(id, "In the manifest writer and reader, a block reached only over the edge on which a string field was found EMPTY does not store, record or pass on that same field: `if f != \"\" { out.f = f }` written with the test inverted copies the field exactly when there is nothing to copy, and the commit id / message a fetcher supplied never reaches the manifest (or the re-opened bundle).", 1)
+		p := c.P
+		n := 0
+		for _, fn := range p.Funcs {
+			if !inBundlePkg(p, fn) {
+				continue
+			}
+			for _, b := range fn.Blocks {
+				ifi, ok := b.Instrs[len(b.Instrs)-1].(*ssa.If)
+				if !ok {
+					continue
+				}
+				cond, neg := stripNot(ifi.Cond)
+				bo, ok := cond.(*ssa.BinOp)
+				if !ok || (bo.Op != token.EQL && bo.Op != token.NEQ) {
+					continue
+				}
+				if e, isC := constString(bo.Y); !isC || e != "" {
+					continue
+				}
+				fld := loadedField(bo.X)
+				if fld == nil {
+					continue
+				}
+				n++
+				emptySucc := 0
+				if (bo.Op == token.NEQ) != neg {
+					emptySucc = 1
+				}
+				empty := []Edge{{b, emptySucc}}
+				bad := token.NoPos
+				for _, b2 := range fn.Blocks {
+					if !guarded(b2, empty) {
+						continue
+					}
+					for _, in := range b2.Instrs {
+						var vals []ssa.Value
+						switch x := in.(type) {
+						case *ssa.Store:
+							vals = []ssa.Value{x.Val}
+						case *ssa.MapUpdate:
+							vals = []ssa.Value{x.Value}
+						case *ssa.Call:
+							if x.Common().StaticCallee() != nil && p.InModule(x.Common().StaticCallee()) {
+								vals = x.Call.Args
+							}
+						}
+						for _, v := range vals {
+							if loadedField(v) == fld {
+								bad = in.Pos()
+							}
+						}
+					}
+				}
+				c.check(bad == token.NoPos, id, p.FuncName(fn), fmt.Sprintf("field %s not copied where it is empty (test %d)", fld.Name(), n), p.Pos(ifi.Cond.Pos()), "no copy of the field on its is-empty edge", "the field "+fld.Name()+" is copied at "+p.Pos(bad)+" on the edge where it was just found empty — the test is inverted: a non-empty value is never copied")
+			}
+		}
+	}
+}
+
+// loadedField: v is a read of a struct field (through an address or a value).
+func loadedField(v ssa.Value) *types.Var {
+	switch x := canon(v).(type) {
+	case *ssa.UnOp:
+		if fa, ok := x.X.(*ssa.FieldAddr); ok && x.Op == token.MUL {
+			return fieldOf(fa)
+		}
+	case *ssa.Field:
+		return fieldOf(x)
+	}
+	return nil
+}
+
+// ruleArgOrder — same-typed arguments are not handed over crosswise.
+func ruleArgOrder(id string) func(*Checker) {
+	return func(c *Checker) {
+		c.rule(id, "In a call of a module function with two or more parameters of one type, an argument that is a read of a field named like ANOTHER parameter of that type (and not like its own) is in the wrong position: PackageMetaWithGitMetadata(meta.GitCommitMessage, meta.GitCommitID) compiles and swaps the two for every re-opened bundle.", 1)
+		p := c.P
+		n := 0
+		norm := func(s string) string { return strings.ToLower(strings.ReplaceAll(s, "_", "")) }
+		for _, fn := range p.Funcs {
+			if !inBundlePkg(p, fn) {
+				continue
+			}
+			for _, ci := range callsIn(fn) {
+				g := ci.Common().StaticCallee()
+				if g == nil || !p.InModule(g) || len(g.Params) < 2 {
+					continue
+				}
+				args := ci.Common().Args
+				for i, a := range args {
+					if i >= len(g.Params) {
+						break
+					}
+					f := loadedField(a)
+					if f == nil {
+						continue
+					}
+					like := func(a, b string) bool {
+						return a == b || (len(b) >= 4 && strings.HasSuffix(a, b)) || (len(a) >= 4 && strings.HasSuffix(b, a))
+					}
+					own := norm(g.Params[i].Name())
+					if like(norm(f.Name()), own) {
+						n++
+						c.pass(id, p.FuncName(fn), fmt.Sprintf("argument %d of %s", i, g.Name()), p.Pos(ci.Pos()), "field "+f.Name()+" for parameter "+g.Params[i].Name())
+						continue
+					}
+					for j, pj := range g.Params {
+						if j != i && types.Identical(pj.Type(), g.Params[i].Type()) && like(norm(f.Name()), norm(pj.Name())) {
+							n++
+							c.fail(id, p.FuncName(fn), fmt.Sprintf("argument %d of %s", i, g.Name()), p.Pos(ci.Pos()), "the field "+f.Name()+" is handed over as parameter "+g.Params[i].Name()+", while the function has a parameter "+pj.Name()+" of the same type: the two values are swapped")
+						}
+					}
+				}
+			}
+		}
+		_ = n
+	}
+}
+
+// ruleTracerNonNil — the tracer handed to the builder's code is never nil.
+func ruleTracerNonNil(id string) func(*Checker) {
+	return func(c *Checker) {
+		c.rule(id, "Every function of the bundle package that returns a pointer to the callback table returns, on every path, either the address of a package-level table or the result of a comma-ok type assertion on its ok edge: without the fall-back to the no-op tracer, a build on a context that carries no tracer — the ordinary case — dereferences nil at the first event.", 1)
+		p := c.P
+		for _, fn := range p.Funcs {
+			if !inBundlePkg(p, fn) || fn.Signature.Results().Len() != 1 {
+				continue
+			}
+			pt, ok := fn.Signature.Results().At(0).Type().Underlying().(*types.Pointer)
+			if !ok || !isCallbackTable(pt.Elem()) || fn.Signature.Recv() != nil {
+				continue
+			}
+			var okVal func(v ssa.Value, at *ssa.BasicBlock, from *ssa.BasicBlock, seen map[ssa.Value]bool) bool
+			okVal = func(v ssa.Value, at, from *ssa.BasicBlock, seen map[ssa.Value]bool) bool {
+				if seen[v] {
+					return true
+				}
+				seen[v] = true
+				switch x := v.(type) {
+				case *ssa.Global:
+					return true
+				case *ssa.Alloc:
+					return true
+				case *ssa.Extract:
+					ta, isTA := x.Tuple.(*ssa.TypeAssert)
+					if !isTA || !ta.CommaOk || x.Index != 0 {
+						return false
+					}
+					var okv ssa.Value
+					for _, r := range *ta.Referrers() {
+						if ex, isEx := r.(*ssa.Extract); isEx && ex.Index == 1 {
+							okv = ex
+						}
+					}
+					if okv == nil {
+						return false
+					}
+					tE, _ := boolEdges(fn, okv)
+					if len(tE) > 0 && guarded(at, tE) {
+						return true
+					}
+					for _, e := range tE {
+						if from != nil && e.From == from && e.To() == at && from.Succs[1-e.Succ] != at {
+							return true
+						}
+					}
+					return false
+				case *ssa.Phi:
+					for i, e := range x.Edges {
+						if !okVal(e, x.Block(), x.Block().Preds[i], seen) {
+							return false
+						}
+					}
+					return true
+				}
+				return false
+			}
+			for i, r := range returnsOf(fn) {
+				c.check(okVal(r.Results[0], r.Block(), nil, map[ssa.Value]bool{}), id, p.FuncName(fn), fmt.Sprintf("return %d is not nil", i), p.Pos(r.Pos()), "a package-level table, or an asserted value on its ok edge", "the tracer returned can be nil (a failed type assertion's zero value is returned as it is): the first `trace.X` of any build on a context without a tracer panics")
+			}
+		}
 	}
 }
